@@ -1,1 +1,1 @@
-from . import strings, regex, dt, dec, io  # noqa
+from . import strings, regex, dt, dec, io, etree  # noqa
